@@ -75,6 +75,32 @@ CHECKS = {
         note="co_lines() is compared per code unit (3.11 and 3.12 partition ranges differently). Trusted: TLC, projections (rec_lines.py, rec_exc.py).",
         technique="TLA+ varint/entry reader machines; TLC model checking of writer+reader, behaviours replayed into xdis and CPython, trace validation",
     ),
+    "C01": dict(
+        category="model_checking",
+        text="Spec S1: MarshalTrace.tla is marshal.c's r_object as a state machine (position, container stack, FLAG_REF reference table with "
+             "reserve/fill discipline, Python-2 interned-string table, eight code-object layouts 1.0..3.13 selected from the magic). As trace judge "
+             "it re-reads the payload bytes of every corpus file and of modules compiled by the nine installed interpreters and checks, token by "
+             "token, the tree xdis's own unmarshaller returned (every field, constants by kind and value, sets as sets, exact consumption). "
+             "MarshalGen.tla (the writer) is model-checked and every behaviour, wrapped in a code object with distinct field values for every "
+             "layout class, is replayed into xdis and into the CPython owning the magic; the reader must accept the writer (round trip). "
+             "CPython's own marshal.loads is validated against the same spec in every run.",
+        design_ref="DESIGN.md section 5 C01, spec S1",
+        note="For 1.0-2.6, 3.0-3.5 and PyPy the spec is the only oracle. Text floats via host float(). PyPy3 identifiers written as TYPE_STRING are "
+             "not judged. Dropbox-encrypted files excluded.",
+        technique="TLA+ marshal reader/writer; TLC model checking of the writer, behaviours replayed into xdis and CPython, TLC trace validation of real loads",
+    ),
+    "C10": dict(
+        category="model_checking",
+        text="The generator side of S1 is the point: MarshalGen.tla enumerates, within a token budget, every value tree x every permitted encoding "
+             "(type code, FLAG_REF, 'r' and 'R' back-references to any earlier flagged object, i/I/l ints incl. zero-length long, text and binary "
+             "floats/complex, u/t/a/A/z/Z text, ( and ) tuples, lists, sets, frozensets, dicts incl. None keys/values) for the six format classes; "
+             "each stream is placed in co_consts of a code object of each bytecode-version class, loaded by xdis and judged by the reference "
+             "reader; the same streams are loaded by CPython 2.7 / 3.x and judged by the same reader.",
+        design_ref="DESIGN.md section 5 C10, spec S1",
+        note="Budget: <= 3 tokens per stream, nesting depth 2 (thorough: richer alphabet). No unordered container inside another. Identity of shared "
+             "objects not compared, equality at every reference site is.",
+        technique="TLA+ marshal writer enumerated exhaustively by TLC; behaviours replayed into xdis and CPython; TLC reference reader as judge",
+    ),
 }
 
 NOT_YET = "check not built yet in this round (planned: see DESIGN.md section 5); not claimed until its machinery exists"
